@@ -235,6 +235,9 @@ hwloc_shmem_topology_adopt(hwloc_topology_t *topologyp,
   new->infos.count = 0;
   new->infos.allocated = 0;
   hwloc__tma_dup_infos(NULL, &new->infos, &old->infos);
+  /* duplicate the allowed sets so that hwloc_topology_allow() may modify them */
+  new->allowed_cpuset = hwloc_bitmap_dup(old->allowed_cpuset);
+  new->allowed_nodeset = hwloc_bitmap_dup(old->allowed_nodeset);
 
 #ifndef HWLOC_DEBUG
   if (getenv("HWLOC_DEBUG_CHECK"))
@@ -262,6 +265,8 @@ hwloc__topology_disadopt(hwloc_topology_t topology)
 {
   hwloc_components_fini();
   hwloc__free_infos(&topology->infos);
+  hwloc_bitmap_free(topology->allowed_cpuset);
+  hwloc_bitmap_free(topology->allowed_nodeset);
   munmap(topology->adopted_shmem_addr, topology->adopted_shmem_length);
   free(topology->support.discovery);
   free(topology->support.cpubind);
